@@ -211,7 +211,7 @@ def run_case(ctx, k, rng):
         ib, fb, dn = vforms.near_limit_int_diagram(rng, int(rng.integers(1, 7)))
         ctx.set_payload({"bars": ib, "dtype": dn, "hom_deg": 0})
         try:
-            dn_, cn_ = build(ctx, [ib], 0)
+            dn_, cn_ = build(ctx, [ib if rng.random() < 0.6 else list(ib)], 0)
             judge(ctx, fb, dn_, cn_, tag=" [narrow integer dtype near its limits]")
             ctx.note("form:near-limit:" + dn)
         except Exception as e:
@@ -273,8 +273,9 @@ def run_case(ctx, k, rng):
     elif sub == 3 and np.all(bars == np.round(bars)) and np.max(np.abs(bars)) < 2 ** 40:
         # container / dtype of the input: integer array, nested list of python ints, float32 array of the same values
         narrow, ndt = vforms.as_int_dtype(rng, bars, narrow_bias=1.0)
+        rows, rname = vforms.as_rows(rng, bars, dtype=(narrow.dtype if rng.random() < 0.6 else np.float64))     # list(dgm), tuple of tuples, ...
         for form, arg in (("int64", bars.astype(np.int64)), ("list", bars.astype(np.int64).tolist()), ("float32", bars.astype(np.float32)),
-                          ("narrow integer", narrow)):
+                          ("narrow integer", narrow), ("container of rows", rows)):
             if form == "float32" and (np.max(np.abs(bars)) >= 2 ** 20 or not np.array_equal(bars.astype(np.float32).astype(float), bars)):
                 continue        # single precision: only judged where sums and half-sums of the coordinates are exact in 24 bits
             try:
